@@ -34,3 +34,5 @@ import SJ.Props.C04Short
 #print axioms SJ.Props.C04Short.c04_typed_default_short
 #print axioms SJ.Props.C04Short.c04_default_long_fails
 #print axioms SJ.Props.C04Short.c04_default_sci15_fails
+#print axioms SJ.Props.C04Short.c04_short_is_exact
+#print axioms SJ.Props.C04Short.c04_default_exact_floats
